@@ -30,8 +30,8 @@ Proof.
 Qed.
 Print Assumptions C36_injective.
 
-(* The exact predicate: a name is stored faithfully when every character is a letter, a digit or one of
-   ! & ( ) + , - . ; = @ _   (the empty name is allowed).  Such a name has no `$` and no `'`, and spliced
+(* The predicate: a name is stored faithfully when every character is a letter, a digit or one of
+   ! & ( ) + , - . ; = @   (the empty name is allowed; `_` is excluded: LIKE wildcard, see below).  Such a name has no `$` and no `'`, and spliced
    between quotes it denotes itself. *)
 Theorem C36_storable_literal : forall n, storable n = true ->
   has_char DOLLAR n = false /\ has_char QUOTE n = false /\ lex_splice n = SLit n.
@@ -175,6 +175,16 @@ Theorem C36_path_unsafe_name_refuted :
      = [ADone; ADone; ALoc [35; 95; 233; 233; 36; 97; 36; 98] false; ANames []].
 Proof. vm_compute. repeat split; reflexivity. Qed.
 Print Assumptions C36_path_unsafe_name_refuted.
+
+(* `_` in a namespace name is a LIKE wildcard of the prefix filters: listing namespace `_` also returns the
+   tables of namespace b, and drop_namespace(_) is refused because b has children *)
+Theorem C36_like_wildcard_in_name_refuted :
+  let ops := [OCreateNs [[95]]; OCreateNs [[98]]; OCreateEmptyTable [[98]; [120]]; OListTables [[95]] None None; ODropNs [[95]]] in
+  Known_C36_like_wildcard_in_name ops = true /\ Known_C36_path_unsafe_name ops = true
+  /\ impl_run 1 ops = [ADone; ADone; ALoc [35; 95; 98; 36; 120] false; ANames [[120]]; AFail E_NS]
+  /\ map_run 1 ops = [ADone; ADone; ALoc [35; 95; 98; 36; 120] false; ANames []; ADone].
+Proof. vm_compute. repeat split; reflexivity. Qed.
+Print Assumptions C36_like_wildcard_in_name_refuted.
 
 (* kind confusion: table_exists of a namespace; drop_namespace deletes a table *)
 Theorem C36_kind_confusion_refuted :
